@@ -4,7 +4,10 @@ from workloads.membership import Run
 
 PROPERTY = 'C02'
 LEVEL = 'exploration'
-RULE = ('every STATE publication of every instance incarnation is captured at emission (wrapper on '
+RULE = ('a quarter of the cases: closing-in-election family (a process whose crash shuts down / restarts Supvisors '
+        'dies when the Master publishes ELECTION after a peer came back); slave entries are also checked against the '
+        'current cycle of the Master (since its last ELECTION); general family: '
+        'every STATE publication of every instance incarnation is captured at emission (wrapper on '
         'rpc_handler.send_state_event) in generated clusters under generated fault scripts, with user '
         'restart / shutdown / end_sync requests on random instances; each change is checked against an edge table '
         'written from the statement; distinct non-trivial = distinct (from, to, role) transitions observed x '
